@@ -3,7 +3,7 @@
    sweep of the 128/64 division algorithm at 3-bit halves. *)
 From Coq Require Import Arith NArith ZArith List Bool Lia Psatz.
 From Coq Require Import ZifyBool ZifyNat ZifyN.
-From Qv Require Import BigIntModel BigIntProofs BigIntProofs2 BigIntHelpers BigIntShift BigIntShiftL.
+From Qv Require Import BigIntModel BigIntProofs BigIntProofs2 BigIntHelpers BigIntShift BigIntShiftL BigIntBits BigIntFfb BigIntWide.
 Import ListNotations.
 Local Open Scope N_scope.
 
@@ -16,119 +16,32 @@ Section W.
 
   (* the operations whose refinement is PROVED (the others are tied by the
      correspondence run only): Add / Subtract at any word index, += / -= of a word,
-     Multiply, Divide, ShiftLeft, ShiftRight, Clear *)
+     (operand type at most one word wide, or at least two words wide), Multiply, Divide, ShiftLeft,
+     ShiftRight, Clear, = |= &= with an operand type at most one word wide, copy-assignment from a
+     BigInt built from such an operand, FindFirstBit, FindLastBit, the comparison family *)
   Inductive proved_op : op -> Prop :=
   | P_AddAt : forall v i, proved_op (OAddAt v i)
   | P_SubAt : forall v i, proved_op (OSubAt v i)
-  | P_Add : forall v, v < B -> proved_op (OAdd w v)
-  | P_Sub : forall v, v < B -> proved_op (OSub w v)
+  | P_Add : forall ow v, ow <= w \/ 2 * w <= ow -> proved_op (OAdd ow v)
+  | P_Sub : forall ow v, ow <= w \/ 2 * w <= ow -> proved_op (OSub ow v)
   | P_Mul : forall v, proved_op (OMul v)
   | P_Div : forall v, proved_op (ODiv v)
   | P_Shl : forall k, proved_op (OShl k)
   | P_Shr : forall k, proved_op (OShr k)
-  | P_Clear : proved_op OClear.
+  | P_Clear : proved_op OClear
+  | P_Set : forall ow v, ow <= w -> proved_op (OSet ow v)
+  | P_And : forall ow v, ow <= w -> proved_op (OAnd ow v)
+  | P_Or : forall ow v, ow <= w -> proved_op (OOr ow v)
+  | P_Copy : forall ow v, ow <= w -> proved_op (OCopy ow v)
+  | P_Ffb : proved_op OFfb
+  | P_Flb : proved_op OFlb
+  | P_Cmp : forall v, proved_op (OCmp v).
 
   Lemma lim_pw : forall n, 2 ^ (w * N.of_nat n) = pw n.
   Proof. intros n. symmetry. apply pw_bits. Qed.
 
   Lemma pw_1 : pw 1 = B.
   Proof. rewrite pw_S, pw_0. lia. Qed.
-
-  Theorem step_correct : mul2_ok w -> div2_ok w -> forall n s o v' r,
-    proved_op o -> WF w s -> length (words s) = n ->
-    spec_op w n (bval s) o = Some (v', r) ->
-    exists s', run_op w s o = Ok (s', r) /\ WF w s' /\ bval s' = v' /\ length (words s') = n.
-  Proof.
-    intros Hmul Hdiv n s o v' r Hp HWF Hn Hs.
-    destruct Hp as [v i|v i|v Hv|v Hv|v|v|k|k|]; cbn [spec_op run_op] in *; rewrite ?lim_pw in Hs.
-    - destruct (N.ltb_spec v B) as [Hv|]; [|discriminate].
-      destruct (N.ltb_spec (bval s + v * pw i) (pw n)) as [Hfit|]; [|discriminate].
-      inversion Hs; subst v' r.
-      destruct (add_correct w s v i HWF Hv ltac:(rewrite Hn; exact Hfit)) as (s' & Hrun & HWF' & Hval & Hl).
-      rewrite Hrun. cbn [bind]. exists s'. repeat split; try apply HWF'; auto; lia.
-    - destruct (N.ltb_spec v B) as [Hv|]; [|discriminate].
-      destruct (N.leb_spec (v * pw i) (bval s)) as [Hfit|]; [|discriminate].
-      destruct (Nat.ltb_spec i n) as [Hi|]; [|discriminate]. cbn [andb] in Hs.
-      inversion Hs; subst v' r.
-      destruct (sub_correct w s v i HWF Hv Hfit) as (s' & Hrun & HWF' & Hval & Hl).
-      rewrite Hrun. cbn [bind]. exists s'. repeat split; try apply HWF'; auto; lia.
-    - destruct (N.ltb_spec v (2 ^ w)) as [_|Hge]; [|unfold Bw in Hv; lia].
-      destruct (N.ltb_spec (bval s + v) (pw n)) as [Hfit|]; [|discriminate].
-      inversion Hs; subst v' r.
-      unfold do_operation. rewrite N.eqb_refl. cbn [do_operation_s word0_step].
-      destruct (add_correct w s v 0 HWF Hv ltac:(rewrite Hn, pw_0; lia)) as (s' & Hrun & HWF' & Hval & Hl).
-      rewrite Hrun. cbn [bind]. rewrite pw_0 in Hval. exists s'. repeat split; try apply HWF'; auto; lia.
-    - destruct (N.ltb_spec v (2 ^ w)) as [_|Hge]; [|unfold Bw in Hv; lia].
-      destruct (N.leb_spec v (bval s)) as [Hfit|]; [|discriminate]. cbn [andb] in Hs.
-      inversion Hs; subst v' r.
-      unfold do_operation. rewrite N.eqb_refl. cbn [do_operation_s word0_step].
-      destruct (sub_correct w s v 0 HWF Hv ltac:(rewrite pw_0; lia)) as (s' & Hrun & HWF' & Hval & Hl).
-      rewrite Hrun. cbn [bind]. rewrite pw_0 in Hval. exists s'. repeat split; try apply HWF'; auto; lia.
-    - destruct (N.ltb_spec v B) as [Hv|]; [|discriminate].
-      destruct (N.ltb_spec (bval s * v) (pw n)) as [Hfit|]; [|discriminate].
-      inversion Hs; subst v' r.
-      destruct (multiply_correct w Hmul s v HWF Hv ltac:(rewrite Hn; exact Hfit)) as (s' & Hrun & HWF' & Hval & Hl).
-      rewrite Hrun. cbn [bind]. exists s'. repeat split; try apply HWF'; auto; lia.
-    - destruct (N.eqb_spec v 0) as [|Hv0]; [discriminate|].
-      destruct (N.leb_spec B v) as [|Hv]; [discriminate|]. cbn [orb] in Hs.
-      inversion Hs; subst v' r.
-      destruct (divide_correct w Hdiv s v HWF ltac:(lia)) as (s' & r' & Hrun & HWF' & Hval & Hr & Hl).
-      rewrite Hrun. subst r'. exists s'. repeat split; try apply HWF'; auto; lia.
-    - destruct (N.ltb_spec (bval s * 2 ^ k) (pw n)) as [Hfit|]; [|discriminate].
-      inversion Hs; subst v' r.
-      destruct (shift_left_correct w w_pos s k HWF ltac:(rewrite Hn; exact Hfit)) as (s' & Hrun & HWF' & Hval & Hl).
-      rewrite Hrun. cbn [bind]. exists s'. repeat split; try apply HWF'; auto; lia.
-    - inversion Hs; subst v' r.
-      destruct (shift_right_correct w w_pos s k HWF) as (s' & Hrun & HWF' & Hval & Hl).
-      rewrite Hrun. cbn [bind]. exists s'. repeat split; try apply HWF'; auto; lia.
-    - inversion Hs; subst v' r.
-      destruct (clear_correct w s (proj1 HWF)) as (s' & Hrun & HWF' & Hval & Hl).
-      rewrite Hrun. cbn [bind]. exists s'. repeat split; try apply HWF'; auto; lia.
-  Qed.
-
-  (* what the specification says about a whole history; None as soon as a result
-     does not fit / a precondition fails *)
-  Fixpoint spec_run (n : nat) (v : N) (ops : list op) : option (list (N * N)) :=
-    match ops with
-    | [] => Some []
-    | o :: rest =>
-      match spec_op w n v o with
-      | None => None
-      | Some (v', r) => option_map (cons (v', r)) (spec_run n v' rest)
-      end
-    end.
-
-  Definition obs_ok (n : nat) (e : res (bigint * N)) (p : N * N) : Prop :=
-    match e with
-    | Ok (s', r) => WF w s' /\ bval s' = fst p /\ r = snd p /\ length (words s') = n
-    | Error _ => False
-    end.
-
-  Theorem history_correct : mul2_ok w -> div2_ok w -> forall n ops s outs,
-    Forall proved_op ops -> WF w s -> length (words s) = n ->
-    spec_run n (bval s) ops = Some outs ->
-    Forall2 (obs_ok n) (run_ops w s ops) outs.
-  Proof.
-    intros Hmul Hdiv n ops. induction ops as [|o rest IH]; intros s outs Hp HWF Hn Hs.
-    - cbn in Hs. inversion Hs. constructor.
-    - inversion Hp as [|? ? Hpo Hprest]; subst. cbn [spec_run] in Hs.
-      destruct (spec_op w (length (words s)) (bval s) o) as [[v' r]|] eqn:Eo; [|discriminate].
-      destruct (step_correct Hmul Hdiv _ s o v' r Hpo HWF eq_refl Eo) as (s' & Hrun & HWF' & Hval & Hl).
-      cbn [run_ops]. rewrite Hrun.
-      destruct (spec_run (length (words s)) v' rest) as [outs'|] eqn:Er; [|discriminate].
-      cbn in Hs. inversion Hs; subst outs.
-      constructor.
-      + unfold obs_ok. cbn [fst snd]. split; [exact HWF'|]. split; [exact Hval|]. split; [reflexivity|exact Hl].
-      + apply IH; auto. rewrite Hval. exact Er.
-  Qed.
-
-  (* the initial object *)
-  Lemma zero_big_WF : forall n, (0 < n)%nat -> WF w (zero_big n) /\ bval (zero_big n) = 0.
-  Proof.
-    intros n Hn. unfold zero_big, BigIntProofs.bval. cbn [words index]. split; [|apply value_repeat0].
-    split; [split; [apply wordsok_repeat|split; [cbn [words index]; rewrite repeat_length; lia|]]|left; reflexivity].
-    intros i _. cbn [words]. apply nth_repeat.
-  Qed.
 
   (* Index() is the word holding the highest set bit of the value (what the oracle checks) *)
   Theorem WF_index_top : forall s, WF w s -> index s = top_index w (bval s).
@@ -173,6 +86,165 @@ Section W.
       destruct (N.eqb_spec (bval s) v); [lia|]. destruct (N.eqb_spec (bval s) 0); [lia|].
       destruct (N.leb_spec B (bval s)); [|lia]. reflexivity.
   Qed.
+
+  (* the initial object *)
+  Lemma zero_big_WF : forall n, (0 < n)%nat -> WF w (zero_big n) /\ bval (zero_big n) = 0.
+  Proof.
+    intros n Hn. unfold zero_big, BigIntProofs.bval. cbn [words index]. split; [|apply value_repeat0].
+    split; [split; [apply wordsok_repeat|split; [cbn [words index]; rewrite repeat_length; lia|]]|left; reflexivity].
+    intros i _. cbn [words]. apply nth_repeat.
+  Qed.
+
+
+  (* an operand type not wider than a word behaves like Number_T itself *)
+  Lemma do_operation_le : forall k ow s v, ow <= w -> v < 2 ^ ow ->
+    do_operation w k ow s v = do_operation w k w s v /\ v < B.
+  Proof.
+    intros k ow s v How Hv.
+    assert (HvB : v < B).
+    { unfold Bw. assert (2 ^ ow <= 2 ^ w) by (apply N.pow_le_mono_r; lia). lia. }
+    split; [|exact HvB]. unfold do_operation. rewrite N.eqb_refl.
+    destruct (N.eqb_spec ow w) as [|Hne]; [reflexivity|].
+    apply do_operation_t_narrow; [exact w_pos| |exact HvB].
+    rewrite N.div_small by lia. lia.
+  Qed.
+
+  Lemma assign_le : forall ow s v, ow <= w -> v < 2 ^ ow -> assign w ow s v = assign w w s v.
+  Proof.
+    intros ow s v How Hv. unfold assign. rewrite (proj1 (do_operation_le KSet ow s v How Hv)). reflexivity.
+  Qed.
+
+  Theorem step_correct : mul2_ok w -> div2_ok w -> forall n s o v' r,
+    proved_op o -> WF w s -> length (words s) = n ->
+    spec_op w n (bval s) o = Some (v', r) ->
+    exists s', run_op w s o = Ok (s', r) /\ WF w s' /\ bval s' = v' /\ length (words s') = n.
+  Proof.
+    intros Hmul Hdiv n s o v' r Hp HWF Hn Hs.
+    destruct Hp as [v i|v i|ow v How|ow v How|v|v|k|k| |ow v How|ow v How|ow v How|ow v How| | |v]; cbn [spec_op run_op] in *; rewrite ?lim_pw in Hs.
+    - destruct (N.ltb_spec v B) as [Hv|]; [|discriminate].
+      destruct (N.ltb_spec (bval s + v * pw i) (pw n)) as [Hfit|]; [|discriminate].
+      inversion Hs; subst v' r.
+      destruct (add_correct w s v i HWF Hv ltac:(rewrite Hn; exact Hfit)) as (s' & Hrun & HWF' & Hval & Hl).
+      rewrite Hrun. cbn [bind]. exists s'. repeat split; try apply HWF'; auto; lia.
+    - destruct (N.ltb_spec v B) as [Hv|]; [|discriminate].
+      destruct (N.leb_spec (v * pw i) (bval s)) as [Hfit|]; [|discriminate].
+      destruct (Nat.ltb_spec i n) as [Hi|]; [|discriminate]. cbn [andb] in Hs.
+      inversion Hs; subst v' r.
+      destruct (sub_correct w s v i HWF Hv Hfit) as (s' & Hrun & HWF' & Hval & Hl).
+      rewrite Hrun. cbn [bind]. exists s'. repeat split; try apply HWF'; auto; lia.
+    - destruct (N.ltb_spec v (2 ^ ow)) as [Hvo|]; [|discriminate].
+      destruct (N.ltb_spec (bval s + v) (pw n)) as [Hfit|]; [|discriminate].
+      inversion Hs; subst v' r.
+      destruct How as [How|How].
+      + destruct (do_operation_le KAdd ow s v How Hvo) as (Eop & Hv). rewrite Eop.
+        unfold do_operation. rewrite N.eqb_refl. cbn [do_operation_s word0_step].
+        destruct (add_correct w s v 0 HWF Hv ltac:(rewrite Hn, pw_0; lia)) as (s' & Hrun & HWF' & Hval & Hl).
+        rewrite Hrun. cbn [bind]. rewrite pw_0 in Hval. exists s'. repeat split; try apply HWF'; auto; lia.
+      + unfold do_operation. destruct (N.eqb_spec ow w) as [|_]; [lia|].
+        assert (H2 : 1 < ow / w) by (assert (2 <= ow / w) by (apply N.div_le_lower_bound; lia); lia).
+        destruct (add_wide_correct w w_pos ow s v H2 HWF ltac:(rewrite Hn; exact Hfit)) as (s' & Hrun & HWF' & Hval & Hl).
+        rewrite Hrun. cbn [bind]. exists s'. repeat split; try apply HWF'; auto; lia.
+    - destruct (N.ltb_spec v (2 ^ ow)) as [Hvo|]; [|discriminate].
+      destruct (N.leb_spec v (bval s)) as [Hfit|]; [|discriminate]. cbn [andb] in Hs.
+      inversion Hs; subst v' r.
+      destruct How as [How|How].
+      + destruct (do_operation_le KSub ow s v How Hvo) as (Eop & Hv). rewrite Eop.
+        unfold do_operation. rewrite N.eqb_refl. cbn [do_operation_s word0_step].
+        destruct (sub_correct w s v 0 HWF Hv ltac:(rewrite pw_0; lia)) as (s' & Hrun & HWF' & Hval & Hl).
+        rewrite Hrun. cbn [bind]. rewrite pw_0 in Hval. exists s'. repeat split; try apply HWF'; auto; lia.
+      + unfold do_operation. destruct (N.eqb_spec ow w) as [|_]; [lia|].
+        assert (H2 : 1 < ow / w) by (assert (2 <= ow / w) by (apply N.div_le_lower_bound; lia); lia).
+        destruct (sub_wide_correct w w_pos ow s v H2 HWF Hfit) as (s' & Hrun & HWF' & Hval & Hl).
+        rewrite Hrun. cbn [bind]. exists s'. repeat split; try apply HWF'; auto; lia.
+    - destruct (N.ltb_spec v B) as [Hv|]; [|discriminate].
+      destruct (N.ltb_spec (bval s * v) (pw n)) as [Hfit|]; [|discriminate].
+      inversion Hs; subst v' r.
+      destruct (multiply_correct w Hmul s v HWF Hv ltac:(rewrite Hn; exact Hfit)) as (s' & Hrun & HWF' & Hval & Hl).
+      rewrite Hrun. cbn [bind]. exists s'. repeat split; try apply HWF'; auto; lia.
+    - destruct (N.eqb_spec v 0) as [|Hv0]; [discriminate|].
+      destruct (N.leb_spec B v) as [|Hv]; [discriminate|]. cbn [orb] in Hs.
+      inversion Hs; subst v' r.
+      destruct (divide_correct w Hdiv s v HWF ltac:(lia)) as (s' & r' & Hrun & HWF' & Hval & Hr & Hl).
+      rewrite Hrun. subst r'. exists s'. repeat split; try apply HWF'; auto; lia.
+    - destruct (N.ltb_spec (bval s * 2 ^ k) (pw n)) as [Hfit|]; [|discriminate].
+      inversion Hs; subst v' r.
+      destruct (shift_left_correct w w_pos s k HWF ltac:(rewrite Hn; exact Hfit)) as (s' & Hrun & HWF' & Hval & Hl).
+      rewrite Hrun. cbn [bind]. exists s'. repeat split; try apply HWF'; auto; lia.
+    - inversion Hs; subst v' r.
+      destruct (shift_right_correct w w_pos s k HWF) as (s' & Hrun & HWF' & Hval & Hl).
+      rewrite Hrun. cbn [bind]. exists s'. repeat split; try apply HWF'; auto; lia.
+    - inversion Hs; subst v' r.
+      destruct (clear_correct w s (proj1 HWF)) as (s' & Hrun & HWF' & Hval & Hl).
+      rewrite Hrun. cbn [bind]. exists s'. repeat split; try apply HWF'; auto; lia.
+    - destruct (N.ltb_spec v (2 ^ ow)) as [Hvo|]; [|discriminate].
+      destruct (N.ltb_spec v (pw n)) as [Hfit|]; [|discriminate]. inversion Hs; subst v' r.
+      rewrite (assign_le ow s v How Hvo). pose proof (proj2 (do_operation_le KSet ow s v How Hvo)) as Hv.
+      destruct (assign_word_correct w s v HWF Hv) as (s' & Hrun & HWF' & Hval & Hl).
+      rewrite Hrun. cbn [bind]. exists s'. repeat split; try apply HWF'; auto; lia.
+    - destruct (N.ltb_spec v (2 ^ ow)) as [Hvo|]; [|discriminate].
+      destruct (N.ltb_spec v (pw n)) as [Hfit|]; [|discriminate]. cbn [andb] in Hs. inversion Hs; subst v' r.
+      destruct (do_operation_le KAnd ow s v How Hvo) as (Eop & Hv). rewrite Eop.
+      destruct (and_word_correct w s v HWF Hv) as (s' & Hrun & HWF' & Hval & Hl).
+      rewrite Hrun. cbn [bind]. exists s'. repeat split; try apply HWF'; auto; lia.
+    - destruct (N.ltb_spec v (2 ^ ow)) as [Hvo|]; [|discriminate].
+      destruct (N.ltb_spec v (pw n)) as [Hfit|]; [|discriminate]. cbn [andb] in Hs. inversion Hs; subst v' r.
+      destruct (do_operation_le KOr ow s v How Hvo) as (Eop & Hv). rewrite Eop.
+      destruct (or_word_correct w s v HWF Hv) as (s' & Hrun & HWF' & Hval & Hl).
+      rewrite Hrun. cbn [bind]. exists s'. repeat split; try apply HWF'; auto; lia.
+    - destruct (N.ltb_spec v (2 ^ ow)) as [Hvo|]; [|discriminate].
+      destruct (N.ltb_spec v (pw n)) as [Hfit|]; [|discriminate]. inversion Hs; subst v' r.
+      rewrite (assign_le ow _ v How Hvo). pose proof (proj2 (do_operation_le KSet ow s v How Hvo)) as Hv.
+      assert (Hn0 : (0 < length (words s))%nat) by (destruct HWF as ((_ & Hi & _) & _); lia).
+      destruct (zero_big_WF (length (words s)) Hn0) as (HWFz & _).
+      destruct (assign_word_correct w (zero_big (length (words s))) v HWFz Hv) as (src & Hrun1 & HWFs & Hvs & Hls).
+      rewrite Hrun1. cbn [bind].
+      assert (Hlz : length (words (zero_big (length (words s)))) = length (words s)) by (cbn; apply repeat_length).
+      destruct (copy_assign_correct w s src HWF HWFs ltac:(lia)) as (s' & Hrun & HWF' & Hval & Hl).
+      rewrite Hrun. cbn [bind]. exists s'. repeat split; try apply HWF'; auto; lia.
+    - destruct (N.eqb_spec (bval s) 0) as [|Hnz]; [discriminate|]. inversion Hs; subst v' r.
+      rewrite (find_first_bit_correct w w_pos s HWF Hnz). cbn [bind]. exists s. repeat split; try apply HWF; auto.
+    - destruct (N.eqb_spec (bval s) 0) as [|Hnz]; [discriminate|]. inversion Hs; subst v' r.
+      rewrite (find_last_bit_correct w w_pos s HWF Hnz). cbn [bind]. exists s. repeat split; try apply HWF; auto.
+    - destruct (N.ltb_spec v B) as [Hv|]; [|discriminate]. inversion Hs; subst v' r.
+      rewrite (compare_correct s v HWF Hv). cbn [bind]. exists s. repeat split; try apply HWF; auto.
+  Qed.
+
+  (* what the specification says about a whole history; None as soon as a result
+     does not fit / a precondition fails *)
+  Fixpoint spec_run (n : nat) (v : N) (ops : list op) : option (list (N * N)) :=
+    match ops with
+    | [] => Some []
+    | o :: rest =>
+      match spec_op w n v o with
+      | None => None
+      | Some (v', r) => option_map (cons (v', r)) (spec_run n v' rest)
+      end
+    end.
+
+  Definition obs_ok (n : nat) (e : res (bigint * N)) (p : N * N) : Prop :=
+    match e with
+    | Ok (s', r) => WF w s' /\ bval s' = fst p /\ r = snd p /\ length (words s') = n
+    | Error _ => False
+    end.
+
+  Theorem history_correct : mul2_ok w -> div2_ok w -> forall n ops s outs,
+    Forall proved_op ops -> WF w s -> length (words s) = n ->
+    spec_run n (bval s) ops = Some outs ->
+    Forall2 (obs_ok n) (run_ops w s ops) outs.
+  Proof.
+    intros Hmul Hdiv n ops. induction ops as [|o rest IH]; intros s outs Hp HWF Hn Hs.
+    - cbn in Hs. inversion Hs. constructor.
+    - inversion Hp as [|? ? Hpo Hprest]; subst. cbn [spec_run] in Hs.
+      destruct (spec_op w (length (words s)) (bval s) o) as [[v' r]|] eqn:Eo; [|discriminate].
+      destruct (step_correct Hmul Hdiv _ s o v' r Hpo HWF eq_refl Eo) as (s' & Hrun & HWF' & Hval & Hl).
+      cbn [run_ops]. rewrite Hrun.
+      destruct (spec_run (length (words s)) v' rest) as [outs'|] eqn:Er; [|discriminate].
+      cbn in Hs. inversion Hs; subst outs.
+      constructor.
+      + unfold obs_ok. cbn [fst snd]. split; [exact HWF'|]. split; [exact Hval|]. split; [reflexivity|exact Hl].
+      + apply IH; auto. rewrite Hval. exact Er.
+  Qed.
+
 End W.
 
 (* ------------------------------------------------------------------------- *)
